@@ -60,6 +60,15 @@ func runC06Vlog(c *Ctx) error {
 			nh = 1500
 		}
 	}
+	return runVlogPhase(c, nh, false)
+}
+
+// vlogForceEnc: every history of the phase runs on an encrypted DB (the C16 instance: records of
+// one request are encrypted with the IV of their own offset, and read back through that offset)
+var vlogForceEnc bool
+
+func runVlogPhase(c *Ctx, nh int, forceEnc bool) error {
+	vlogForceEnc = forceEnc
 	c.Setup("Uvarint Keys Codec Crc32c LogRecord Consts VlogWrite CorrVlog", "run_case")
 	defer c.closeShard()
 	for i := 0; i < nh; i++ {
@@ -88,14 +97,14 @@ func c06VlogHist(c *Ctx, idx int) error {
 	const threshold = 32
 	fileSize := int64(1 << 20)
 	maxEntries := uint32(2 + c.Rng.Intn(7))
-	big := idx%24 == 11 // rotation by size: values of tens of kilobytes
+	big := idx%24 == 11 && !vlogForceEnc // rotation by size: values of tens of kilobytes
 	if big {
 		maxEntries = 1000
 	}
 	opt := badger.DefaultOptions(dir).WithLoggingLevel(badger.ERROR).WithValueThreshold(threshold).
 		WithValueLogMaxEntries(maxEntries).WithValueLogFileSize(fileSize).WithMemTableSize(8 << 20).
 		WithNumCompactors(0).WithNumVersionsToKeep(1000).WithMetricsEnabled(false).WithCompactL0OnClose(false)
-	encrypted := idx%4 == 2
+	encrypted := idx%4 == 2 || vlogForceEnc
 	if encrypted {
 		// the record cipher uses an IV derived from the record's own offset: pointers and
 		// read-back values must be those of the plain model (the cipher is an involution)
